@@ -1,5 +1,7 @@
 import TracklibVerif.Lemmas.Proj
 import TracklibVerif.Lemmas.ProjExt
+import TracklibVerif.Lemmas.ProjTrack
+import TracklibVerif.Lemmas.ProjNear
 import Mathlib.Analysis.Real.Sqrt
 /-! # C20 — projecting a point on a polyline returns its nearest point
 
@@ -17,14 +19,35 @@ and the counter-examples, which are evaluated on the model. For every non-vertic
 is proved at the strength of the property: `proj_segment_nearest_partial` (one segment: point on it, distance
 to it, minimal), `proj_segment_horizontal` (closed form for horizontal segments), `proj_polyline_vertices` and
 `proj_polyline_nearest_partial` (polyline: index of the carrying segment, point on it, distance to it, minimal
-over every point of every segment, the skipped zero-length segments included). IEEE rounding is outside these
+over every point of every segment, the skipped zero-length segments included — and, since the `fix:` commit 563eeba, also
+when NO segment is kept: all the vertices coincide), `proj_polyline_skipped_partial` (a skipped
+segment of non-zero length `< 1e-16` touching a kept one is covered up to `1e-16`), `proj_polyline_skipped_run` /
+`proj_polyline_skipped_run_back` (a run of `k` consecutive skipped segments from a kept end: up to `k · 1e-16`),
+`proj_polyline_all_skipped` (EVERY segment skipped — the case the fix repaired; before it the code raised
+`UnboundLocalError` —: the first vertex is returned with the distance to it, and the polyline is that point up to
+(number of segments) × `1e-16`), `proj_polyline_on` (what any answer guarantees on any polyline), `projPolyligne_vs_old`
+(the repair changes nothing where the old code returned). An empty polyline raises `IndexError`. IEEE rounding is outside these
 statements (the horizontal-segment defect D17 and its near-vertical counterpart exist only in floating point).
 
 Front ends (second half of the file): the argument forms of `proj_segment` / `proj_polyligne` (lists vs numpy
 arrays, two sequences of unequal lengths), `Track.getX()/getY()` on 3D positions, `__projOnTrack` and both
 branches of `mapOnTrack` are in the model; `projOnTrack3_planimetric` says that the projection is planimetric
 (no altitude is read, the returned point has third coordinate 0), so that every theorem about `projPolyligne`
-applies to `mapOnTrack` on 3D data through `mapOnTrack3_coord` / `mapOnTrack3_track`. -/
+applies to `mapOnTrack` on 3D data through `mapOnTrack3_coord` / `mapOnTrack3_track`.
+
+Track objects (last part of the file, model `Model/ProjTrack.lean`): the Track branch of `mapOnTrack` on tracks that carry
+STATE — a table of analytical features (possibly with features called `dist` / `edge`: the output of an earlier
+`mapOnTrack`), time stamps. `mapOnTrackT_rows`: the output is a fresh track with exactly the features `dist`, `edge`,
+whose columns are the distance and the segment index of THIS projection of every query, whatever the track of queries
+carried (`mapOnTrackT_ignores_state`); `mapChain_calls`: in chained snapping every call is such a projection of the
+positions of the previous output; `mapOnTrackT_nearest_partial`: the property at full strength through the track
+form; `mapOnTrackT_empty`: a track of queries without observation raises.
+
+The listed finding as a case (end of the file): `vertical_zerodiv_iff` (which queries raise on a vertical segment) and
+`proj_polyline_vertical_case` (what an answer on a polyline WITH kept vertical segments still guarantees: the reported
+segment is vertical and the point is one of its ends, or the answer is right w.r.t. the non-vertical segments) — the model's
+side of the class `vertical-segment` by which the harness excuses failing answers (recognised from the geometry of the
+input, whatever the failure looks like). -/
 namespace TV.C20
 open TV.Proj
 variable {α : Type} [Field α] [LinearOrder α] [IsStrictOrderedRing α]
@@ -157,7 +180,9 @@ theorem vertical_as_coded {sqrt : α → α} (hs : SqrtSpec sqrt) (x1 y1 y2 x y 
     · left; congr 1; ext <;> simp [e1, e2]
     · right; congr 1; ext <;> simp [e1, e2]
 
-/-- T4 `proj_polyline_min_partial`: when `proj_polyligne` returns `(d, (px,py), i)`:
+/-- T4 `proj_polyline_min_partial`: when `proj_polyligne` returns `(d, (px,py), i)` on a polyline with at least one
+segment that is not skipped (`hex`; the other case — every segment skipped, the polyline is a point up to `1e-16` per
+segment — is `proj_polyline_all_skipped`):
 * `i` is the index of a segment of the polyline that was not skipped as (near-)zero-length, and `(px,py)` lies on it;
 * `d` is the distance from the query to `(px,py)`;
 * `d` is at most the distance to both end points of every non-skipped segment of any orientation, and at most
@@ -165,83 +190,162 @@ theorem vertical_as_coded {sqrt : α → α} (hs : SqrtSpec sqrt) (x1 y1 y2 x y 
 Hence on a polyline without vertical segments the result is a nearest point and its carrying segment.
 Missing w.r.t. the property: interior points of vertical segments (false there: D16). -/
 theorem proj_polyline_min_partial {sqrt : α → α} (hs : SqrtSpec sqrt) (eps : α) (pts : List (α × α))
-    (x y d px py : α) (i : Nat) (h : projPolyligne sqrt eps pts x y = .ok (d, px, py, i)) :
+    (x y d px py : α) (i : Nat) (h : projPolyligne sqrt eps pts x y = .ok (d, px, py, i))
+    (hex : ∃ j p1 p2, pts[j]? = some p1 ∧ pts[j + 1]? = some p2 ∧ skipped eps p1.1 p1.2 p2.1 p2.2 = false) :
     (∃ p1 p2, pts[i]? = some p1 ∧ pts[i + 1]? = some p2 ∧ skipped eps p1.1 p1.2 p2.1 p2.2 = false ∧
         OnSeg p1.1 p1.2 p2.1 p2.2 px py) ∧
     0 ≤ d ∧ d * d = d2 x y px py ∧
     (∀ j p1 p2, pts[j]? = some p1 → pts[j + 1]? = some p2 → skipped eps p1.1 p1.2 p2.1 p2.2 = false →
         (d * d ≤ d2 x y p1.1 p1.2 ∧ d * d ≤ d2 x y p2.1 p2.2) ∧
         (p1.1 ≠ p2.1 → ∀ qx qy, OnSeg p1.1 p1.2 p2.1 p2.2 qx qy → d * d ≤ d2 x y qx qy)) := by
-  unfold projPolyligne at h
-  cases hl : polyLoop sqrt eps x y pts 0 none with
-  | error e => rw [hl] at h; cases h
-  | ok res =>
-    rw [hl] at h
-    cases res with
-    | none => cases h
-    | some r =>
-      simp only at h
-      injection h with h
-      subst h
-      obtain ⟨o1, _, o3⟩ := polyLoop_spec sqrt eps x y pts 0 none _ hl
-      have hfrom : FromSeg sqrt eps x y pts 0 (d, px, py, i) := by
-        rcases o1 with e | ⟨r, e, f⟩
-        · cases e
-        · injection e with e; rw [e]; exact f
-      obtain ⟨k, p1, p2, ⟨s1, s2⟩, hi, hk, hp⟩ := hfrom
-      simp only [Nat.zero_add] at hi
-      subst hi
-      obtain ⟨d0, dd⟩ := proj_dist_consistent hs _ _ _ _ _ _ _ _ _ hp
-      refine ⟨⟨p1, p2, s1, s2, hk, proj_on_segment hs _ _ _ _ _ _ _ _ _ hp⟩, d0, dd, ?_⟩
-      intro j q1 q2 t1 t2 hj
-      obtain ⟨r, rk, er, hrk, le⟩ := o3 j q1 q2 ⟨t1, t2⟩ hj
-      injection er with er
-      subst er
-      simp only at le
-      have sq : d * d ≤ rk.1 * rk.1 := mul_self_le_mul_self d0 le
-      by_cases hx : q1.1 = q2.1
-      · refine ⟨?_, fun hne => absurd hx hne⟩
-        rw [← hx] at hrk
-        by_cases hy : q1.2 = q2.2
-        · rw [← hy, projSegment_degenerate hs] at hrk; cases hrk
-        · rw [projSegment_vertical hs _ _ _ _ _ hy] at hrk
-          split at hrk
-          · cases hrk
-          · injection hrk with hrk
-            obtain ⟨_, _, le1, le2, _⟩ := nearestEnd_spec hs q1.1 q1.2 q1.1 q2.2 x y
-            rw [hrk] at le1 le2
-            rw [← hx]
-            exact ⟨le_trans sq le1, le_trans sq le2⟩
-      · obtain ⟨d', px', py', e', hmin⟩ := proj_segment_min_partial hs q1.1 q1.2 q2.1 q2.2 x y hx
-        rw [hrk] at e'
-        injection e' with e'
-        have e1 : rk.1 = d' := by rw [e']
-        rw [e1] at sq
-        have all : ∀ qx qy, OnSeg q1.1 q1.2 q2.1 q2.2 qx qy → d * d ≤ d2 x y qx qy :=
-          fun qx qy hq => le_trans sq (hmin qx qy hq)
-        exact ⟨⟨all _ _ ⟨0, le_refl _, zero_le_one, by ring, by ring⟩,
-                all _ _ ⟨1, zero_le_one, le_refl _, by ring, by ring⟩⟩, fun _ => all⟩
+  have hl := projPolyligne_kept sqrt eps pts x y _ hex h
+  obtain ⟨o1, _, o3⟩ := polyLoop_spec sqrt eps x y pts 0 none _ hl
+  have hfrom : FromSeg sqrt eps x y pts 0 (d, px, py, i) := by
+    rcases o1 with e | ⟨r, e, f⟩
+    · cases e
+    · injection e with e; rw [e]; exact f
+  obtain ⟨k, p1, p2, ⟨s1, s2⟩, hi, hk, hp⟩ := hfrom
+  simp only [Nat.zero_add] at hi
+  subst hi
+  obtain ⟨d0, dd⟩ := proj_dist_consistent hs _ _ _ _ _ _ _ _ _ hp
+  refine ⟨⟨p1, p2, s1, s2, hk, proj_on_segment hs _ _ _ _ _ _ _ _ _ hp⟩, d0, dd, ?_⟩
+  intro j q1 q2 t1 t2 hj
+  obtain ⟨r, rk, er, hrk, le⟩ := o3 j q1 q2 ⟨t1, t2⟩ hj
+  injection er with er
+  subst er
+  simp only at le
+  have sq : d * d ≤ rk.1 * rk.1 := mul_self_le_mul_self d0 le
+  by_cases hx : q1.1 = q2.1
+  · refine ⟨?_, fun hne => absurd hx hne⟩
+    rw [← hx] at hrk
+    by_cases hy : q1.2 = q2.2
+    · rw [← hy, projSegment_degenerate hs] at hrk; cases hrk
+    · rw [projSegment_vertical hs _ _ _ _ _ hy] at hrk
+      split at hrk
+      · cases hrk
+      · injection hrk with hrk
+        obtain ⟨_, _, le1, le2, _⟩ := nearestEnd_spec hs q1.1 q1.2 q1.1 q2.2 x y
+        rw [hrk] at le1 le2
+        rw [← hx]
+        exact ⟨le_trans sq le1, le_trans sq le2⟩
+  · obtain ⟨d', px', py', e', hmin⟩ := proj_segment_min_partial hs q1.1 q1.2 q2.1 q2.2 x y hx
+    rw [hrk] at e'
+    injection e' with e'
+    have e1 : rk.1 = d' := by rw [e']
+    rw [e1] at sq
+    have all : ∀ qx qy, OnSeg q1.1 q1.2 q2.1 q2.2 qx qy → d * d ≤ d2 x y qx qy :=
+      fun qx qy hq => le_trans sq (hmin qx qy hq)
+    exact ⟨⟨all _ _ ⟨0, le_refl _, zero_le_one, by ring, by ring⟩,
+            all _ _ ⟨1, zero_le_one, le_refl _, by ring, by ring⟩⟩, fun _ => all⟩
 
-/-- T4b `proj_polyline_total`: on a polyline with at least one non-skipped segment and no non-skipped
-vertical one, `proj_polyligne` returns (no `ZeroDivisionError`, no `UnboundLocalError`). -/
+/-- T4b `proj_polyline_total`: on a polyline with at least one vertex and no non-skipped vertical segment,
+`proj_polyligne` returns (no `ZeroDivisionError`, no `IndexError`) — whether or not a segment is kept (since the
+`fix:` commit 563eeba a polyline all of whose segments are skipped is answered with its first vertex). -/
 theorem proj_polyline_total {sqrt : α → α} (hs : SqrtSpec sqrt) (eps : α) (pts : List (α × α)) (x y : α)
     (hnv : ∀ j p1 p2, pts[j]? = some p1 → pts[j + 1]? = some p2 → skipped eps p1.1 p1.2 p2.1 p2.2 = false → p1.1 ≠ p2.1)
-    (hex : ∃ j p1 p2, pts[j]? = some p1 ∧ pts[j + 1]? = some p2 ∧ skipped eps p1.1 p1.2 p2.1 p2.2 = false) :
+    (hne : pts ≠ []) :
     ∃ r, projPolyligne sqrt eps pts x y = .ok r := by
   have hall : ∀ k p1 p2, SegAt pts k p1 p2 → skipped eps p1.1 p1.2 p2.1 p2.2 = false →
       ∃ r, projSegment sqrt p1.1 p1.2 p2.1 p2.2 x y = .ok r := by
     intro k p1 p2 hs' hk
     obtain ⟨d, px, py, e, _⟩ := proj_segment_min_partial hs p1.1 p1.2 p2.1 p2.2 x y (hnv k p1 p2 hs'.1 hs'.2 hk)
     exact ⟨_, e⟩
-  obtain ⟨res, e, f⟩ := polyLoop_total sqrt eps x y pts hall 0 none
+  obtain ⟨res, e, _⟩ := polyLoop_total sqrt eps x y pts hall 0 none
   unfold projPolyligne
-  rw [e]
-  cases res with
-  | some r => exact ⟨r, rfl⟩
-  | none =>
-    obtain ⟨j, p1, p2, s1, s2, hk⟩ := hex
-    have := (f rfl).2 j p1 p2 ⟨s1, s2⟩
-    rw [hk] at this; cases this
+  match pts, hne, e with
+  | p0 :: rest, _, e =>
+    simp only [e]
+    cases res with
+    | some r => exact ⟨r, rfl⟩
+    | none => exact ⟨_, rfl⟩
+
+/-- `proj_polyline_all_skipped` (the case the `fix:` commit 563eeba repaired): a polyline ALL of whose segments are skipped by
+the `abs(dx) + abs(dy) < eps` test (`1e-16`) — all the vertices coincide, exactly or up to the threshold per segment; a single
+vertex. `proj_polyligne` returns its FIRST vertex `p0`, index `0`, and the distance `d` from the query to `p0`
+(`0 ≤ d`, `d² = |q - p0|²`); the polyline IS that point up to (number of segments) × `eps`: every point `(qx, qy)` of its
+`(t+1)`-th segment is within `(t + 1) * eps` of `p0` (in the `|dx| + |dy|` sense of the test), hence
+`d ≤ |q - (qx, qy)| + (t + 1) * eps` and `|q - (qx, qy)| ≤ d + (t + 1) * eps`: the returned distance is the minimum distance to
+the polyline up to that bound, and exactly when the vertices coincide exactly (`eps`-free form: `proj_polyline_nearest_partial`).
+Every orientation (a skipped segment is never handed to `proj_segment`): no exception. Exact arithmetic. -/
+theorem proj_polyline_all_skipped {sqrt : α → α} (hs : SqrtSpec sqrt) (eps : α) (p0 : α × α) (rest : List (α × α)) (x y : α)
+    (hall : ∀ j p1 p2, (p0 :: rest)[j]? = some p1 → (p0 :: rest)[j + 1]? = some p2 → skipped eps p1.1 p1.2 p2.1 p2.2 = true) :
+    ∃ d, projPolyligne sqrt eps (p0 :: rest) x y = .ok (d, p0.1, p0.2, 0) ∧ 0 ≤ d ∧ d * d = d2 x y p0.1 p0.2 ∧
+      ∀ t a b, (p0 :: rest)[t]? = some a → (p0 :: rest)[t + 1]? = some b → ∀ qx qy, OnSeg a.1 a.2 b.1 b.2 qx qy →
+        |qx - p0.1| + |qy - p0.2| ≤ ((t + 1 : Nat) : α) * eps ∧
+        d ≤ sqrt (d2 x y qx qy) + ((t + 1 : Nat) : α) * eps ∧ sqrt (d2 x y qx qy) ≤ d + ((t + 1 : Nat) : α) * eps := by
+  obtain ⟨d0, dd⟩ := hs _ (d2_nonneg x y p0.1 p0.2)
+  refine ⟨sqrt (d2 x y p0.1 p0.2), projPolyligne_all_skipped sqrt eps p0 rest x y (fun k p1 p2 hk => hall k p1 p2 hk.1 hk.2),
+    d0, dd, ?_⟩
+  intro t a b ha hb qx qy hq
+  have hlt : fabs (a.1 - b.1) + fabs (a.2 - b.2) < eps := by
+    simpa [skipped] using hall t a b ha hb
+  obtain ⟨n1, _⟩ := onSeg_near_ends _ _ _ _ _ _ hq
+  obtain ⟨e0, ee⟩ := hs _ (d2_nonneg x y qx qy)
+  have hr := run_near eps (p0 :: rest) 0 t p0 a rfl (by rw [Nat.zero_add]; exact ha)
+    (fun s' hs' a' b' ha' hb' => hall s' a' b' (by rw [Nat.zero_add] at ha'; exact ha') (by rw [Nat.zero_add] at hb'; exact hb'))
+  have t1 : |qx - p0.1| ≤ |qx - a.1| + |a.1 - p0.1| := abs_sub_le _ _ _
+  have t2 : |qy - p0.2| ≤ |qy - a.2| + |a.2 - p0.2| := abs_sub_le _ _ _
+  have hnear : |qx - p0.1| + |qy - p0.2| ≤ ((t + 1 : Nat) : α) * eps := by
+    push_cast
+    linarith
+  have hnear' : |p0.1 - qx| + |p0.2 - qy| ≤ ((t + 1 : Nat) : α) * eps := by
+    rw [abs_sub_comm p0.1 qx, abs_sub_comm p0.2 qy]; exact hnear
+  exact ⟨hnear, near_vertex_bound x y p0.1 p0.2 qx qy _ _ _ d0 e0 (le_of_eq dd) ee hnear,
+    near_vertex_bound x y qx qy p0.1 p0.2 _ _ _ e0 d0 (le_of_eq ee) dd hnear'⟩
+
+/-- `proj_polyline_on`: what an answer `(d, (px,py), i)` of `proj_polyligne` guarantees on ANY polyline, with or without a kept
+segment, of any orientation: vertex `i` exists; `d` is the distance from the query to `(px,py)`; when the polyline has at
+least two vertices, segment `i` exists and `(px,py)` lies on it (a kept segment, or — every segment skipped — segment 0, of
+which it is the first end); on a single-vertex polyline `i = 0` and `(px,py)` is that vertex. This is what C10's candidate
+loop uses (position on an existing edge geometry, distance within the radius). -/
+theorem proj_polyline_on {sqrt : α → α} (hs : SqrtSpec sqrt) (eps : α) (pts : List (α × α))
+    (x y d px py : α) (i : Nat) (h : projPolyligne sqrt eps pts x y = .ok (d, px, py, i)) :
+    0 ≤ d ∧ d * d = d2 x y px py ∧ ∃ p1, pts[i]? = some p1 ∧
+      (2 ≤ pts.length → ∃ p2, pts[i + 1]? = some p2 ∧ OnSeg p1.1 p1.2 p2.1 p2.2 px py) ∧
+      (pts.length = 1 → i = 0 ∧ (px, py) = p1) := by
+  by_cases hex : ∃ j p1 p2, pts[j]? = some p1 ∧ pts[j + 1]? = some p2 ∧ skipped eps p1.1 p1.2 p2.1 p2.2 = false
+  · obtain ⟨⟨p1, p2, s1, s2, _, hon⟩, d0, dd, _⟩ := proj_polyline_min_partial hs eps pts x y d px py i h hex
+    refine ⟨d0, dd, p1, s1, fun _ => ⟨p2, s2, hon⟩, fun h1 => ?_⟩
+    have := (List.getElem?_eq_some_iff.mp s2).1
+    omega
+  · have hsk : ∀ j p1 p2, pts[j]? = some p1 → pts[j + 1]? = some p2 → skipped eps p1.1 p1.2 p2.1 p2.2 = true := by
+      intro j p1 p2 t1 t2
+      cases hk : skipped eps p1.1 p1.2 p2.1 p2.2 with
+      | true => rfl
+      | false => exact absurd ⟨j, p1, p2, t1, t2, hk⟩ hex
+    match pts, h, hsk with
+    | [], h, _ => simp [projPolyligne] at h
+    | p0 :: rest, h, hsk =>
+      obtain ⟨d', e', d0, dd, _⟩ := proj_polyline_all_skipped hs eps p0 rest x y hsk
+      rw [e'] at h
+      injection h with h
+      simp only [Prod.mk.injEq] at h
+      obtain ⟨rfl, rfl, rfl, rfl⟩ := h
+      refine ⟨d0, dd, p0, rfl, ?_, fun _ => ⟨rfl, rfl⟩⟩
+      intro h2
+      match rest, h2 with
+      | p1 :: rest', _ => exact ⟨p1, rfl, ⟨0, le_refl _, zero_le_one, by ring, by ring⟩⟩
+
+/-- the repair is conservative: whenever the pre-fix function (`projPolyligneOld`, kept only as the documented old variant:
+`none` = its `UnboundLocalError`) returned an answer, the current one returns the same; where it raised
+`UnboundLocalError` on a non-empty polyline the current one returns the first vertex -/
+theorem projPolyligne_vs_old (sqrt : α → α) (eps : α) (pts : List (α × α)) (x y : α) :
+    (∀ r, projPolyligneOld sqrt eps pts x y = .ok (some r) → projPolyligne sqrt eps pts x y = .ok r) ∧
+    (∀ p0 rest, pts = p0 :: rest → projPolyligneOld sqrt eps pts x y = .ok none →
+      projPolyligne sqrt eps pts x y = .ok (firstVertex sqrt x y p0.1 p0.2)) ∧
+    (∀ e, projPolyligneOld sqrt eps pts x y = .error e → pts ≠ [] → projPolyligne sqrt eps pts x y = .error e) := by
+  unfold projPolyligneOld projPolyligne
+  refine ⟨?_, ?_, ?_⟩
+  · intro r h
+    match pts, h with
+    | [], h => simp [polyLoop] at h
+    | p0 :: rest, h => simp only [h]
+  · intro p0 rest e h
+    subst e
+    simp only [h]
+  · intro e h hne
+    match pts, hne, h with
+    | p0 :: rest, _, h => simp only [h]
 
 /-- T5 `projOnTrack_spec`: the map-matching wrapper `__projOnTrack` / `mapOnTrack(coord, track)` returns the same
 point, distance and segment index as `proj_polyligne`, reordered as `(point, distance, index)`. -/
@@ -328,6 +432,15 @@ lattice `eps = 1` skips exactly the zero-length segments), query `(0,0)` → seg
 example : (projPolyligne sqTable 1 [(-4, 3), (4, 3), (4, 3), (4, -3)] 0 0).toOption
     = some (3, 0, 3, 0) := by decide +kernel
 
+/-- non-vacuity of `proj_polyline_all_skipped`, evaluated on the model (`eps = 1`): the polyline `(4,3),(4,3),(4,3)` (the
+witness of the repaired defect: all vertices equal) and `(4,3),(4,13/4),(4,7/2)` (two segments of length `1/4`, both
+skipped), query `(0,0)` → the first vertex `(4,3)` at distance 5, index 0; a single vertex too; an empty polyline raises
+`IndexError` (`Xp[0]`) -/
+example : (projPolyligne sqTable 1 [(4, 3), (4, 3), (4, 3)] 0 0).toOption = some (5, 4, 3, 0)
+    ∧ (projPolyligne sqTable 1 [(4, 3), (4, 13 / 4), (4, 7 / 2)] 0 0).toOption = some (5, 4, 3, 0)
+    ∧ (projPolyligne sqTable 1 [(4, 3)] 0 0).toOption = some (5, 4, 3, 0)
+    ∧ (match projPolyligne sqTable 1 [] 0 0 with | .error .index => true | _ => false) = true := by decide +kernel
+
 /-! ## The statement at the strength of the property, for every non-vertical orientation
 
 Exact arithmetic (an ordered field): the floating-point defect D17 of horizontal segments (`yb = -c / b` not
@@ -391,13 +504,35 @@ theorem proj_polyline_vertices {sqrt : α → α} (hs : SqrtSpec sqrt) (eps : α
     (x y d px py : α) (i : Nat) (h : projPolyligne sqrt eps pts x y = .ok (d, px, py, i))
     (hz : ∀ j p1 p2, pts[j]? = some p1 → pts[j + 1]? = some p2 → skipped eps p1.1 p1.2 p2.1 p2.2 = true → p1 = p2) :
     ∀ (v : Nat) (p : α × α), pts[v]? = some p → d * d ≤ d2 x y p.1 p.2 := by
-  obtain ⟨⟨p1, p2, s1, s2, hk, _⟩, _, _, hall⟩ := proj_polyline_min_partial hs eps pts x y d px py i h
-  exact vertices_of_live eps pts (fun p => d * d ≤ d2 x y p.1 p.2) i p1 hz
-    (fun j q1 q2 t1 t2 hj => (hall j q1 q2 t1 t2 hj).1) s1 (hall i p1 p2 s1 s2 hk).1.1
+  by_cases hex : ∃ j p1 p2, pts[j]? = some p1 ∧ pts[j + 1]? = some p2 ∧ skipped eps p1.1 p1.2 p2.1 p2.2 = false
+  · obtain ⟨⟨p1, p2, s1, s2, hk, _⟩, _, _, hall⟩ := proj_polyline_min_partial hs eps pts x y d px py i h hex
+    exact vertices_of_live eps pts (fun p => d * d ≤ d2 x y p.1 p.2) i p1 hz
+      (fun j q1 q2 t1 t2 hj => (hall j q1 q2 t1 t2 hj).1) s1 (hall i p1 p2 s1 s2 hk).1.1
+  · -- every segment is skipped, hence (hz) all the vertices are the first one, which is what is returned
+    have hsk : ∀ j p1 p2, pts[j]? = some p1 → pts[j + 1]? = some p2 → skipped eps p1.1 p1.2 p2.1 p2.2 = true := by
+      intro j p1 p2 t1 t2
+      cases hk : skipped eps p1.1 p1.2 p2.1 p2.2 with
+      | true => rfl
+      | false => exact absurd ⟨j, p1, p2, t1, t2, hk⟩ hex
+    match pts, h, hz, hsk with
+    | [], h, _, _ => simp [projPolyligne] at h
+    | p0 :: rest, h, hz, hsk =>
+      rw [projPolyligne_all_skipped sqrt eps p0 rest x y (fun k p1 p2 hk => hsk k p1 p2 hk.1 hk.2)] at h
+      injection h with h
+      simp only [firstVertex, Prod.mk.injEq] at h
+      obtain ⟨hd, _, _, _⟩ := h
+      obtain ⟨_, dd⟩ := hs _ (d2_nonneg x y p0.1 p0.2)
+      have hall : ∀ (v : Nat) (p : α × α), (p0 :: rest)[v]? = some p → p = p0 :=
+        vertices_of_live eps (p0 :: rest) (fun p => p = p0) 0 p0 hz
+          (fun j q1 q2 t1 t2 hj => by rw [hsk j q1 q2 t1 t2] at hj; cases hj) rfl rfl
+      intro v p hp
+      rw [hall v p hp, ← hd]
+      exact le_of_eq dd
 
 /-- T4'' `proj_polyline_nearest_partial`: the property at full strength for every polyline without vertical segment.
-Hypotheses: no segment kept by the `< 1e-16` test is vertical; every segment skipped by it has two equal vertices; at
-least one segment is kept. Then `proj_polyligne` returns `(d, (px,py), i)` with: `i` the index of a segment of the
+Hypotheses: no segment kept by the `< 1e-16` test is vertical; every segment skipped by it has two equal vertices; the
+polyline has at least two vertices (NO segment need be kept: a polyline all of whose vertices coincide is covered since the
+`fix:` commit 563eeba — the returned point is then that vertex, on segment 0). Then `proj_polyligne` returns `(d, (px,py), i)` with: `i` the index of a segment of the
 polyline, `(px,py)` on that segment, `d` = distance from the query to `(px,py)`, and `d` ≤ the distance from the query
 to **every point of every segment** of the polyline (skipped ones included): `(px,py)` is a nearest point of the
 polyline. Segments may be oblique or horizontal, run in any direction, repeat vertices, be collinear.
@@ -406,26 +541,171 @@ length `< 1e-16` (its points are nearer than `1e-16` to a vertex). -/
 theorem proj_polyline_nearest_partial {sqrt : α → α} (hs : SqrtSpec sqrt) (eps : α) (pts : List (α × α)) (x y : α)
     (hnv : ∀ j p1 p2, pts[j]? = some p1 → pts[j + 1]? = some p2 → skipped eps p1.1 p1.2 p2.1 p2.2 = false → p1.1 ≠ p2.1)
     (hz : ∀ j p1 p2, pts[j]? = some p1 → pts[j + 1]? = some p2 → skipped eps p1.1 p1.2 p2.1 p2.2 = true → p1 = p2)
-    (hex : ∃ j p1 p2, pts[j]? = some p1 ∧ pts[j + 1]? = some p2 ∧ skipped eps p1.1 p1.2 p2.1 p2.2 = false) :
+    (h2 : 2 ≤ pts.length) :
     ∃ d px py i, projPolyligne sqrt eps pts x y = .ok (d, px, py, i) ∧
       (∃ p1 p2, pts[i]? = some p1 ∧ pts[i + 1]? = some p2 ∧ OnSeg p1.1 p1.2 p2.1 p2.2 px py) ∧
       0 ≤ d ∧ d * d = d2 x y px py ∧
       ∀ j p1 p2, pts[j]? = some p1 → pts[j + 1]? = some p2 →
         ∀ qx qy, OnSeg p1.1 p1.2 p2.1 p2.2 qx qy → d * d ≤ d2 x y qx qy := by
-  obtain ⟨⟨d, px, py, i⟩, h⟩ := proj_polyline_total hs eps pts x y hnv hex
-  obtain ⟨⟨p1, p2, s1, s2, _, hon⟩, d0, dd, hall⟩ := proj_polyline_min_partial hs eps pts x y d px py i h
-  refine ⟨d, px, py, i, h, ⟨p1, p2, s1, s2, hon⟩, d0, dd, ?_⟩
-  intro j q1 q2 t1 t2 qx qy hq
-  cases hsk : skipped eps q1.1 q1.2 q2.1 q2.2 with
-  | false => exact (hall j q1 q2 t1 t2 hsk).2 (hnv j q1 q2 t1 t2 hsk) qx qy hq
-  | true =>
-    have e := hz j q1 q2 t1 t2 hsk
-    subst e
-    obtain ⟨t, _, _, e1, e2⟩ := hq
-    have ex : qx = q1.1 := by rw [e1]; ring
-    have ey : qy = q1.2 := by rw [e2]; ring
-    rw [ex, ey]
-    exact proj_polyline_vertices hs eps pts x y d px py i h hz j q1 t1
+  have hne : pts ≠ [] := by intro e; subst e; simp at h2
+  obtain ⟨⟨d, px, py, i⟩, h⟩ := proj_polyline_total hs eps pts x y hnv hne
+  -- minimality over every point of every segment, from the vertices (skipped segments) and T4 (kept ones)
+  have hmin : (∀ j p1 p2, pts[j]? = some p1 → pts[j + 1]? = some p2 → skipped eps p1.1 p1.2 p2.1 p2.2 = false →
+        p1.1 ≠ p2.1 → ∀ qx qy, OnSeg p1.1 p1.2 p2.1 p2.2 qx qy → d * d ≤ d2 x y qx qy) →
+      ∀ j p1 p2, pts[j]? = some p1 → pts[j + 1]? = some p2 →
+        ∀ qx qy, OnSeg p1.1 p1.2 p2.1 p2.2 qx qy → d * d ≤ d2 x y qx qy := by
+    intro hall j q1 q2 t1 t2 qx qy hq
+    cases hsk : skipped eps q1.1 q1.2 q2.1 q2.2 with
+    | false => exact hall j q1 q2 t1 t2 hsk (hnv j q1 q2 t1 t2 hsk) qx qy hq
+    | true =>
+      have e := hz j q1 q2 t1 t2 hsk
+      subst e
+      obtain ⟨t, _, _, e1, e2⟩ := hq
+      have ex : qx = q1.1 := by rw [e1]; ring
+      have ey : qy = q1.2 := by rw [e2]; ring
+      rw [ex, ey]
+      exact proj_polyline_vertices hs eps pts x y d px py i h hz j q1 t1
+  by_cases hex : ∃ j p1 p2, pts[j]? = some p1 ∧ pts[j + 1]? = some p2 ∧ skipped eps p1.1 p1.2 p2.1 p2.2 = false
+  · obtain ⟨⟨p1, p2, s1, s2, _, hon⟩, d0, dd, hall⟩ := proj_polyline_min_partial hs eps pts x y d px py i h hex
+    exact ⟨d, px, py, i, h, ⟨p1, p2, s1, s2, hon⟩, d0, dd,
+      hmin (fun j q1 q2 t1 t2 hsk hne' => (hall j q1 q2 t1 t2 hsk).2 hne')⟩
+  · -- every segment is skipped: the first vertex, which lies on segment 0
+    have hsk : ∀ j p1 p2, pts[j]? = some p1 → pts[j + 1]? = some p2 → skipped eps p1.1 p1.2 p2.1 p2.2 = true := by
+      intro j p1 p2 t1 t2
+      cases hk : skipped eps p1.1 p1.2 p2.1 p2.2 with
+      | true => rfl
+      | false => exact absurd ⟨j, p1, p2, t1, t2, hk⟩ hex
+    match pts, h2, h, hsk, hmin with
+    | p0 :: p1 :: rest, _, h, hsk, hmin =>
+      obtain ⟨d', e', d0, dd, _⟩ := proj_polyline_all_skipped hs eps p0 (p1 :: rest) x y hsk
+      rw [e'] at h
+      injection h with h
+      simp only [Prod.mk.injEq] at h
+      obtain ⟨rfl, rfl, rfl, rfl⟩ := h
+      refine ⟨d', p0.1, p0.2, 0, e', ⟨p0, p1, rfl, rfl, ⟨0, le_refl _, zero_le_one, by ring, by ring⟩⟩, d0, dd, ?_⟩
+      exact hmin (fun j q1 q2 t1 t2 hk => by rw [hsk j q1 q2 t1 t2] at hk; cases hk)
+
+/-- `proj_polyline_skipped_partial`: the error made by skipping a segment of NON-zero length `< eps` (`1e-16`) is at most
+`eps`. If `proj_polyligne` returns `(d, …)` and segment `j` is skipped by the `abs(dx) + abs(dy) < eps` test while one of
+its two ends is also an end of a segment that is kept (the usual case: an isolated tiny segment between two ordinary
+ones), then for every point `(qx, qy)` of the skipped segment `d ≤ |query - (qx, qy)| + eps` (the distance written with
+the `sqrt` parameter). Together with `proj_polyline_min_partial` (kept segments): on a polyline without kept vertical
+segment whose skipped segments each touch a kept one, the returned distance exceeds the true minimum by less than `eps`.
+A run of several consecutive skipped segments: `proj_polyline_skipped_run` / `proj_polyline_skipped_run_back` below (the
+bound is then the number of skipped segments up to the nearest kept end, times `eps`). Exact arithmetic. -/
+theorem proj_polyline_skipped_partial {sqrt : α → α} (hs : SqrtSpec sqrt) (eps : α) (pts : List (α × α))
+    (x y d px py : α) (i : Nat) (h : projPolyligne sqrt eps pts x y = .ok (d, px, py, i))
+    (j : Nat) (p1 p2 : α × α) (h1 : pts[j]? = some p1) (h2 : pts[j + 1]? = some p2)
+    (hsk : skipped eps p1.1 p1.2 p2.1 p2.2 = true)
+    (hadj : ∃ k q1 q2, pts[k]? = some q1 ∧ pts[k + 1]? = some q2 ∧ skipped eps q1.1 q1.2 q2.1 q2.2 = false ∧
+      (q1 = p1 ∨ q2 = p1 ∨ q1 = p2 ∨ q2 = p2)) :
+    ∀ qx qy, OnSeg p1.1 p1.2 p2.1 p2.2 qx qy → d ≤ sqrt (d2 x y qx qy) + eps := by
+  obtain ⟨k, q1, q2, k1, k2, hk, hends⟩ := hadj
+  obtain ⟨_, d0, _, hall⟩ := proj_polyline_min_partial hs eps pts x y d px py i h ⟨k, q1, q2, k1, k2, hk⟩
+  obtain ⟨⟨b1, b2⟩, _⟩ := hall k q1 q2 k1 k2 hk
+  have hlt : fabs (p1.1 - p2.1) + fabs (p1.2 - p2.2) < eps := by
+    simpa [skipped] using hsk
+  intro qx qy hq
+  obtain ⟨n1, n2⟩ := onSeg_near_ends _ _ _ _ _ _ hq
+  obtain ⟨e0, ee⟩ := hs _ (d2_nonneg x y qx qy)
+  have hend : d * d ≤ d2 x y p1.1 p1.2 ∨ d * d ≤ d2 x y p2.1 p2.2 := by
+    rcases hends with e | e | e | e
+    · left; rw [← e]; exact b1
+    · left; rw [← e]; exact b2
+    · right; rw [← e]; exact b1
+    · right; rw [← e]; exact b2
+  rcases hend with hv | hv
+  · exact near_vertex_bound x y p1.1 p1.2 qx qy d _ eps d0 e0 hv ee (le_of_lt (lt_of_le_of_lt n1 hlt))
+  · exact near_vertex_bound x y p2.1 p2.2 qx qy d _ eps d0 e0 hv ee (le_of_lt (lt_of_le_of_lt n2 hlt))
+
+/-- non-vacuity of `proj_polyline_skipped_partial`: polyline `(-4,3),(4,3),(4,7/2)` with `eps = 1` skips the segment
+`(4,3)-(4,7/2)` of length `1/2`, whose first end is the end of the kept horizontal segment; query `(0,0)` → segment 0 at
+distance 3 (every point of the skipped segment is farther than 3 anyway: the bound `d ≤ |q - p| + eps` holds with room) -/
+example : (projPolyligne sqTable 1 [(-4, 3), (4, 3), (4, 7 / 2)] 0 0).toOption = some (3, 0, 3, 0)
+    ∧ skipped (1 : Rat) 4 3 4 (7 / 2) = true ∧ skipped (1 : Rat) (-4) 3 4 3 = false := by decide +kernel
+
+/-- `proj_polyline_skipped_run`: a RUN of consecutive skipped segments of non-zero length (each `abs(dx) + abs(dy) < eps`,
+`1e-16`), going FORWARD from a vertex `v` that is an end of a kept segment: if `proj_polyligne` returns `(d, …)`, every point
+`(qx, qy)` of the `(t+1)`-th segment of the run satisfies `d ≤ |query - (qx, qy)| + (t + 1) * eps` — the error made by skipping
+the run is at most the number of skipped segments walked from the nearest kept end, times the threshold. With
+`proj_polyline_skipped_run_back` (runs going backward to a kept end) and `proj_polyline_min_partial` this covers every point of a
+polyline that has a kept segment (a maximal run of skipped segments always touches a kept segment at one of its ends, unless
+every segment is skipped — then `proj_polyline_all_skipped` applies: the first vertex is returned and every point is covered up
+to (number of segments) × `eps`): without kept vertical segment the returned distance exceeds the true
+minimum by at most (longest run) × `eps`. `proj_polyline_skipped_partial` is the case `r = 1`. Exact arithmetic. -/
+theorem proj_polyline_skipped_run {sqrt : α → α} (hs : SqrtSpec sqrt) (eps : α) (pts : List (α × α))
+    (x y d px py : α) (i : Nat) (h : projPolyligne sqrt eps pts x y = .ok (d, px, py, i))
+    (v r : Nat) (pv : α × α) (hv : pts[v]? = some pv)
+    (hadj : ∃ k q1 q2, pts[k]? = some q1 ∧ pts[k + 1]? = some q2 ∧ skipped eps q1.1 q1.2 q2.1 q2.2 = false ∧
+      (q1 = pv ∨ q2 = pv))
+    (hrun : ∀ t, t < r → ∀ a b, pts[v + t]? = some a → pts[v + t + 1]? = some b → skipped eps a.1 a.2 b.1 b.2 = true) :
+    ∀ t, t < r → ∀ a b, pts[v + t]? = some a → pts[v + t + 1]? = some b →
+      ∀ qx qy, OnSeg a.1 a.2 b.1 b.2 qx qy → d ≤ sqrt (d2 x y qx qy) + ((t + 1 : Nat) : α) * eps := by
+  obtain ⟨k, q1, q2, k1, k2, hk, hends⟩ := hadj
+  obtain ⟨_, d0, _, hall⟩ := proj_polyline_min_partial hs eps pts x y d px py i h ⟨k, q1, q2, k1, k2, hk⟩
+  obtain ⟨⟨b1, b2⟩, _⟩ := hall k q1 q2 k1 k2 hk
+  have hvd : d * d ≤ d2 x y pv.1 pv.2 := by
+    rcases hends with e | e
+    · rw [← e]; exact b1
+    · rw [← e]; exact b2
+  intro t ht a b ha hb qx qy hq
+  have hlt : fabs (a.1 - b.1) + fabs (a.2 - b.2) < eps := by
+    simpa [skipped] using hrun t ht a b ha hb
+  obtain ⟨n1, _⟩ := onSeg_near_ends _ _ _ _ _ _ hq
+  obtain ⟨e0, ee⟩ := hs _ (d2_nonneg x y qx qy)
+  have hr := run_near eps pts v t pv a hv ha (fun s hs' a' b' ha' hb' => hrun s (Nat.lt_trans hs' ht) a' b' ha' hb')
+  have t1 : |qx - pv.1| ≤ |qx - a.1| + |a.1 - pv.1| := abs_sub_le _ _ _
+  have t2 : |qy - pv.2| ≤ |qy - a.2| + |a.2 - pv.2| := abs_sub_le _ _ _
+  refine near_vertex_bound x y pv.1 pv.2 qx qy d _ _ d0 e0 hvd ee ?_
+  push_cast
+  linarith
+
+/-- `proj_polyline_skipped_run_back`: the same for a run of skipped segments `w, …, w + r - 1` going BACKWARD from the vertex
+`w + r`, an end of a kept segment: every point of segment `w + t` of the run satisfies
+`d ≤ |query - (qx, qy)| + (r - t) * eps`. Exact arithmetic. -/
+theorem proj_polyline_skipped_run_back {sqrt : α → α} (hs : SqrtSpec sqrt) (eps : α) (pts : List (α × α))
+    (x y d px py : α) (i : Nat) (h : projPolyligne sqrt eps pts x y = .ok (d, px, py, i))
+    (w r : Nat) (pv : α × α) (hv : pts[w + r]? = some pv)
+    (hadj : ∃ k q1 q2, pts[k]? = some q1 ∧ pts[k + 1]? = some q2 ∧ skipped eps q1.1 q1.2 q2.1 q2.2 = false ∧
+      (q1 = pv ∨ q2 = pv))
+    (hrun : ∀ t, t < r → ∀ a b, pts[w + t]? = some a → pts[w + t + 1]? = some b → skipped eps a.1 a.2 b.1 b.2 = true) :
+    ∀ t, t < r → ∀ a b, pts[w + t]? = some a → pts[w + t + 1]? = some b →
+      ∀ qx qy, OnSeg a.1 a.2 b.1 b.2 qx qy → d ≤ sqrt (d2 x y qx qy) + ((r - t : Nat) : α) * eps := by
+  obtain ⟨k, q1, q2, k1, k2, hk, hends⟩ := hadj
+  obtain ⟨_, d0, _, hall⟩ := proj_polyline_min_partial hs eps pts x y d px py i h ⟨k, q1, q2, k1, k2, hk⟩
+  obtain ⟨⟨b1, b2⟩, _⟩ := hall k q1 q2 k1 k2 hk
+  have hvd : d * d ≤ d2 x y pv.1 pv.2 := by
+    rcases hends with e | e
+    · rw [← e]; exact b1
+    · rw [← e]; exact b2
+  intro t ht a b ha hb qx qy hq
+  have hlt : fabs (a.1 - b.1) + fabs (a.2 - b.2) < eps := by
+    simpa [skipped] using hrun t ht a b ha hb
+  obtain ⟨_, n2⟩ := onSeg_near_ends _ _ _ _ _ _ hq
+  obtain ⟨e0, ee⟩ := hs _ (d2_nonneg x y qx qy)
+  have hidx : w + t + 1 + (r - t - 1) = w + r := by omega
+  have hr := run_near eps pts (w + t + 1) (r - t - 1) b pv hb (by rw [hidx]; exact hv)
+    (fun s hs' a' b' ha' hb' => hrun (t + 1 + s) (by omega) a' b'
+      (by rw [show w + (t + 1 + s) = w + t + 1 + s by omega]; exact ha')
+      (by rw [show w + (t + 1 + s) + 1 = w + t + 1 + s + 1 by omega]; exact hb'))
+  have t1 : |qx - pv.1| ≤ |qx - b.1| + |b.1 - pv.1| := abs_sub_le _ _ _
+  have t2 : |qy - pv.2| ≤ |qy - b.2| + |b.2 - pv.2| := abs_sub_le _ _ _
+  rw [abs_sub_comm b.1 pv.1] at t1
+  rw [abs_sub_comm b.2 pv.2] at t2
+  refine near_vertex_bound x y pv.1 pv.2 qx qy d _ _ d0 e0 hvd ee ?_
+  have hc : ((r - t : Nat) : α) = ((r - t - 1 : Nat) : α) + 1 := by
+    have : r - t = (r - t - 1) + 1 := by omega
+    rw [this]; push_cast; simp
+  rw [hc]
+  linarith
+
+/-- non-vacuity of the two run theorems, evaluated on the model (`eps = 1`): `(-4,3),(4,3),(4,13/4),(4,7/2)` — the two last
+segments (length `1/4` each) are skipped, a forward run from the end `(4,3)` of the kept segment 0; the query `(0,0)` →
+segment 0 at distance 3. Reversed polyline: a backward run ending at vertex 2, the answer is carried by segment 2 -/
+example : (projPolyligne sqTable 1 [(-4, 3), (4, 3), (4, 13 / 4), (4, 7 / 2)] 0 0).toOption = some (3, 0, 3, 0)
+    ∧ skipped (1 : Rat) 4 3 4 (13 / 4) = true ∧ skipped (1 : Rat) 4 (13 / 4) 4 (7 / 2) = true
+    ∧ (projPolyligne sqTable 1 [(4, 7 / 2), (4, 13 / 4), (4, 3), (-4, 3)] 0 0).toOption = some (3, 0, 3, 2) := by decide +kernel
+
 
 /-! ## Argument forms and front ends -/
 
@@ -457,23 +737,29 @@ theorem projPolyligneXY_spec (np : Bool) (sqrt : α → α) (eps : α) (X Y : Li
     · exact projSegmentG_of_ne np sqrt _ _ _ _ _ _ (hnv k p1 p2 hs.1 hs.2 hk)
   unfold projPolyligneXY projPolyligne
   rw [polyLoopXY_zip np sqrt eps x y X Y 0 none hl hseg]
-  cases polyLoop sqrt eps x y (X.zip Y) 0 none with
-  | error e => rfl
-  | ok r => cases r <;> rfl
+  match X, Y, hl with
+  | [], _, _ => rfl
+  | x0 :: xs, [], hl => simp at hl
+  | x0 :: xs, y0 :: ys, _ =>
+    simp only [List.zip_cons_cons]
+    cases polyLoop sqrt eps x y ((x0, y0) :: xs.zip ys) 0 none with
+    | error e => rfl
+    | ok r => cases r <;> rfl
 
-/-- `projPolyligneXY_short`: with `len(Yp) < len(Xp)` `proj_polyligne` never returns a value (`IndexError`, an earlier
-`ZeroDivisionError`, or `UnboundLocalError` when `Xp` has fewer than two elements). -/
+/-- `projPolyligneXY_short`: with `len(Yp) < len(Xp)` `proj_polyligne` never returns a value (`IndexError` — at `Yp[0]` when
+`Yp` is empty, else in the loop at `Yp[i]` / `Yp[i + 1]` —, or an earlier `ZeroDivisionError`). -/
 theorem projPolyligneXY_short (np : Bool) (sqrt : α → α) (eps : α) (X Y : List α) (x y : α) (hl : Y.length < X.length)
     (r : α × α × α × Nat) : projPolyligneXY np sqrt eps X Y x y ≠ .ok r := by
   unfold projPolyligneXY
-  by_cases h2 : 2 ≤ X.length
-  · cases hres : polyLoopXY np sqrt eps x y X Y 0 none with
+  match X, Y, hl with
+  | [], _, hl => simp at hl
+  | _ :: _, [], _ => simp
+  | [_], _ :: _, hl => simp at hl
+  | x0 :: x1 :: xs, y0 :: ys, hl =>
+    simp only []
+    cases hres : polyLoopXY np sqrt eps x y (x0 :: x1 :: xs) (y0 :: ys) 0 none with
     | error e => simp
-    | ok res => exact absurd hres (polyLoopXY_short np sqrt eps x y X Y 0 none res h2 hl)
-  · match X, h2 with
-    | [], _ => simp [polyLoopXY]
-    | [_], _ => simp [polyLoopXY]
-    | _ :: _ :: _, h2 => simp at h2
+    | ok res => exact absurd hres (polyLoopXY_short np sqrt eps x y _ _ 0 none res (by simp) hl)
 
 /-- the planimetric vertices of a list of 3D positions -/
 def xy (pts : List (α × α × α)) : List (α × α) := pts.map (fun p => (p.1, p.2.1))
@@ -567,6 +853,187 @@ theorem mapOnTrack3_track (sqrt : α → α) (eps : α) (pts : List (α × α ×
     injection h with h
     exact ⟨rows, h.symm, key qs rows hp⟩
 
+/-! ## The Track branch of `mapOnTrack` on track objects with state (`Model/ProjTrack.lean`) -/
+open TV.ProjTrack TV.Features
+
+/-- `mapOnTrackT_rows`: `mapOnTrack(track_of_queries, track)` on two track OBJECTS (feature tables, time stamps). When it
+returns, the output track has **exactly the features `dist`, `edge`** (in that order), default time stamps, and there
+are rows `(point, d, i)`, one per observation of the track of queries, in order, such that: the positions of the output
+are the points, `output["dist"]` is the column of the `d`, `output["edge"]` the column of the `i`, and row `j` is
+`(ENUCoords(px, py, 0), d, i)` with `(d, px, py, i) = proj_polyligne` of query `j` on the planimetric vertices of the
+reference track. Nothing in the statement depends on the features / time stamps the two input tracks carry: a feature
+called `dist` or `edge` on the track of queries (the output of an earlier `mapOnTrack`) is NOT what the output holds. -/
+theorem mapOnTrackT_rows (sqrt : α → α) (eps : α) (ofNat : Nat → α) (ref q out : St α)
+    (h : mapOnTrackT sqrt eps ofNat ref q = .ok out) :
+    out.dico.map Prod.fst = ["dist", "edge"] ∧
+    ∃ rows : List ((α × α × α) × α × Nat),
+      rows.length = (positions q).length ∧ rows ≠ [] ∧
+      positions out = rows.map (fun r => r.1) ∧
+      column out "dist" = some (rows.map (fun r => r.2.1)) ∧
+      column out "edge" = some (rows.map (fun r => ofNat r.2.2)) ∧
+      out.ts = rows.map (fun _ => (0 : α)) ∧
+      ∀ (j : Nat) (qj : α × α × α), (positions q)[j]? = some qj → ∃ px py d i, rows[j]? = some ((px, py, 0), d, i) ∧
+        projPolyligne sqrt eps (xy (positions ref)) qj.1 qj.2.1 = .ok (d, px, py, i) := by
+  rw [mapOnTrackT_eq] at h
+  cases hall : mapOnTrack3All sqrt eps (positions ref) (positions q) with
+  | error e => rw [hall] at h; cases h
+  | ok rows =>
+    rw [hall] at h
+    cases rows with
+    | nil => cases h
+    | cons r rs =>
+      simp only at h
+      injection h with h
+      subst h
+      have h3 : mapOnTrack3 sqrt eps (positions ref) (.inr (positions q)) = .ok (.inr (r :: rs)) := by
+        simp [mapOnTrack3, hall, Except.map]
+      obtain ⟨rows', e', l', f'⟩ := mapOnTrack3_track sqrt eps (positions ref) (positions q) _ h3
+      injection e' with e'
+      subst e'
+      exact ⟨rfl, r :: rs, l', by simp, positions_outputOf ofNat _, column_dist ofNat _, column_edge ofNat _, rfl, f'⟩
+
+/-- `mapOnTrackT_ignores_state`: the result of `mapOnTrack(track_of_queries, track)` depends on the POSITIONS of the two
+tracks only: two tracks of queries (two reference tracks) with the same positions and any analytical features, any
+time stamps, give the same output track — or the same exception. -/
+theorem mapOnTrackT_ignores_state (sqrt : α → α) (eps : α) (ofNat : Nat → α) (ref ref' q q' : St α)
+    (hr : positions ref = positions ref') (hq : positions q = positions q') :
+    mapOnTrackT sqrt eps ofNat ref q = mapOnTrackT sqrt eps ofNat ref' q' := by
+  unfold mapOnTrackT
+  rw [hr, hq]
+
+/-- `mapOnTrackT_empty`: a track of queries without observation: `createAnalyticalFeature("dist", [])` on the empty
+output raises `AnalyticalFeatureError` ("there is no observation in track"), whatever the reference track. -/
+theorem mapOnTrackT_empty (sqrt : α → α) (eps : α) (ofNat : Nat → α) (ref q : St α) (hq : positions q = []) :
+    mapOnTrackT sqrt eps ofNat ref q = .error (.feat .empty) := by
+  rw [mapOnTrackT_eq, hq]
+  simp [mapOnTrack3All]
+
+/-- `mapChain_calls`: chained snapping `mapOnTrack(… mapOnTrack(mapOnTrack(q, ref₀), ref₁) …)` that runs to its end: one
+output per reference track, and output `k` is `mapOnTrack(track of queries of call k, refₖ)` where the track of queries of
+call `0` is `q` and that of call `k + 1` is output `k` — so that by `mapOnTrackT_rows` the `dist` / `edge` of output
+`k + 1` are those of the projection of the positions of output `k` on `refₖ₊₁`, not the `dist` / `edge` output `k` carries. -/
+theorem mapChain_calls (sqrt : α → α) (eps : α) (ofNat : Nat → α) (refs : List (St α)) (q : St α) (outs : List (St α))
+    (h : mapChain sqrt eps ofNat refs q = (outs, none)) :
+    outs.length = refs.length ∧
+    ∀ (k : Nat) (r : St α), refs[k]? = some r → ∃ o, outs[k]? = some o ∧
+      mapOnTrackT sqrt eps ofNat r ((q :: outs)[k]?.getD q) = .ok o := by
+  induction refs generalizing q outs with
+  | nil =>
+    simp only [mapChain, Prod.mk.injEq] at h
+    obtain ⟨rfl, _⟩ := h
+    exact ⟨rfl, fun k r hk => by simp at hk⟩
+  | cons r0 rs ih =>
+    rw [mapChain] at h
+    split at h
+    · simp at h
+    · rename_i o ho
+      simp only [Prod.mk.injEq] at h
+      obtain ⟨h1, h2⟩ := h
+      subst h1
+      obtain ⟨l, f⟩ := ih o (mapChain sqrt eps ofNat rs o).1 (by rw [← h2])
+      refine ⟨by simp [l], ?_⟩
+      intro k r hk
+      cases k with
+      | zero =>
+        simp only [List.getElem?_cons_zero, Option.some.injEq] at hk
+        subst hk
+        exact ⟨o, by simp, by simpa using ho⟩
+      | succ k =>
+        simp only [List.getElem?_cons_succ] at hk
+        obtain ⟨o', e1, e2⟩ := f k r hk
+        refine ⟨o', by simpa using e1, ?_⟩
+        cases k with
+        | zero => simpa using e2
+        | succ k =>
+          simp only [List.getElem?_cons_succ] at e2 ⊢
+          cases hk' : (mapChain sqrt eps ofNat rs o).1[k]? with
+          | none =>
+            obtain ⟨hlt, _⟩ := List.getElem?_eq_some_iff.mp e1
+            have := List.getElem?_eq_none_iff.mp hk'
+            omega
+          | some v => simpa [hk'] using e2
+
+/-- `mapOnTrackT_nearest_partial`: the property at full strength **through the track form**, on track objects with any
+state. Hypotheses on the reference polyline as in `proj_polyline_nearest_partial` (no kept vertical segment, skipped
+segments zero-length, at least two vertices — a reference track all of whose positions coincide included), and a track of queries with at least one observation. Then `mapOnTrack(track, track)`
+returns an output track, with rows `(point, d, i)` one per query in order such that the output's positions are the
+points, its `dist` feature the `d`, its `edge` feature the `i`, and for every query `j`: the point is
+`ENUCoords(px, py, 0)` lying on segment `i` of the reference polyline, `d` is the distance from the query to it, and `d` is
+at most the distance from the query to every point of every segment — whatever features (`dist` / `edge` included) and
+time stamps the track of queries and the reference track carry.
+Missing w.r.t. the property: as `proj_polyline_nearest_partial` (vertical segments: D16; exact arithmetic). -/
+theorem mapOnTrackT_nearest_partial {sqrt : α → α} (hs : SqrtSpec sqrt) (eps : α) (ofNat : Nat → α) (ref q : St α)
+    (hq : positions q ≠ [])
+    (hnv : ∀ j p1 p2, (xy (positions ref))[j]? = some p1 → (xy (positions ref))[j + 1]? = some p2 →
+      skipped eps p1.1 p1.2 p2.1 p2.2 = false → p1.1 ≠ p2.1)
+    (hz : ∀ j p1 p2, (xy (positions ref))[j]? = some p1 → (xy (positions ref))[j + 1]? = some p2 →
+      skipped eps p1.1 p1.2 p2.1 p2.2 = true → p1 = p2)
+    (h2 : 2 ≤ (xy (positions ref)).length) :
+    ∃ (out : St α) (rows : List ((α × α × α) × α × Nat)),
+      mapOnTrackT sqrt eps ofNat ref q = .ok out ∧ out.dico.map Prod.fst = ["dist", "edge"] ∧
+      rows.length = (positions q).length ∧ positions out = rows.map (fun r => r.1) ∧
+      column out "dist" = some (rows.map (fun r => r.2.1)) ∧ column out "edge" = some (rows.map (fun r => ofNat r.2.2)) ∧
+      ∀ (j : Nat) (qj : α × α × α), (positions q)[j]? = some qj → ∃ px py d i, rows[j]? = some ((px, py, 0), d, i) ∧
+        (∃ p1 p2, (xy (positions ref))[i]? = some p1 ∧ (xy (positions ref))[i + 1]? = some p2 ∧
+          OnSeg p1.1 p1.2 p2.1 p2.2 px py) ∧
+        0 ≤ d ∧ d * d = d2 qj.1 qj.2.1 px py ∧
+        ∀ j' p1 p2, (xy (positions ref))[j']? = some p1 → (xy (positions ref))[j' + 1]? = some p2 →
+          ∀ qx qy, OnSeg p1.1 p1.2 p2.1 p2.2 qx qy → d * d ≤ d2 qj.1 qj.2.1 qx qy := by
+  -- every query projects
+  have hone : ∀ qj : α × α × α, ∃ r, projOnTrack3 sqrt eps (positions ref) qj = .ok r := by
+    intro qj
+    obtain ⟨d, px, py, i, e, _⟩ := proj_polyline_nearest_partial hs eps (xy (positions ref)) qj.1 qj.2.1 hnv hz h2
+    exact ⟨_, (projOnTrack3_planimetric sqrt eps (positions ref) qj px py 0 d i).mpr ⟨rfl, e⟩⟩
+  have hall : ∀ qs : List (α × α × α), ∃ rows, mapOnTrack3All sqrt eps (positions ref) qs = .ok rows := by
+    intro qs
+    induction qs with
+    | nil => exact ⟨[], rfl⟩
+    | cons q0 qs ih =>
+      obtain ⟨r0, e0⟩ := hone q0
+      obtain ⟨rs, es⟩ := ih
+      exact ⟨r0 :: rs, by rw [mapOnTrack3All, e0]; simp only; rw [es]⟩
+  obtain ⟨rows0, e0⟩ := hall (positions q)
+  have hlen := mapOnTrack3All_length sqrt eps _ _ _ e0
+  have hout : ∃ out, mapOnTrackT sqrt eps ofNat ref q = .ok out := by
+    rw [mapOnTrackT_eq, e0]
+    cases rows0 with
+    | nil => exact absurd (List.length_eq_zero_iff.mp hlen.symm) hq
+    | cons r rs => exact ⟨_, rfl⟩
+  obtain ⟨out, eout⟩ := hout
+  obtain ⟨hd, rows, l, _, hp, hdist, hedge, _, f⟩ := mapOnTrackT_rows sqrt eps ofNat ref q out eout
+  refine ⟨out, rows, eout, hd, l, hp, hdist, hedge, ?_⟩
+  intro j qj hj
+  obtain ⟨px, py, d, i, er, ep⟩ := f j qj hj
+  obtain ⟨d', px', py', i', e', hon, d0, dd, hmin⟩ :=
+    proj_polyline_nearest_partial hs eps (xy (positions ref)) qj.1 qj.2.1 hnv hz h2
+  rw [ep] at e'
+  injection e' with e'
+  simp only [Prod.mk.injEq] at e'
+  obtain ⟨rfl, rfl, rfl, rfl⟩ := e'
+  exact ⟨px, py, d, i, er, hon, d0, dd, hmin⟩
+
+/-- a track of queries that was snapped before: one observation at `(3, 4, 5)` carrying `dist = 99`, `edge = 7` -/
+def snapped : St Rat :=
+  { dico := [("dist", 0), ("edge", 1)], rows := [[99, 7]], xs := [3], ys := [4], zs := [5], ts := [1000] }
+/-- a reference track `(0,0,35)-(8,0,40)` carrying a feature of its own -/
+def refTrack : St Rat :=
+  { dico := [("abs_curv", 0)], rows := [[0], [8]], xs := [0, 8], ys := [0, 0], zs := [35, 40], ts := [0, 1] }
+
+/-- evaluated on the model: snapping `snapped` on `refTrack` gives `dist = [4]`, `edge = [0]` (NOT the `99`, `7` it
+carried), the features `dist`, `edge` only, the point `(3, 0, 0)`, the default time stamp -/
+example : (match mapOnTrackT sqTable 1 (fun n => (n : Rat)) refTrack snapped with
+    | .ok o => column o "dist" == some [4] && column o "edge" == some [0] && o.dico.map Prod.fst == ["dist", "edge"]
+        && positions o == [(3, 0, 0)] && o.ts == [0]
+    | .error _ => false) = true := by decide +kernel
+/-- evaluated on the model: two-step snapping, first on `(0,0)-(8,0)` then on `(0,-3)-(8,-3)`: the second output holds
+the distance 3 from the first output `(3,0)` to the second line -/
+example : (match mapChain sqTable 1 (fun n => (n : Rat)) [refTrack, { refTrack with ys := [-3, -3] }] snapped with
+    | ([o1, o2], none) => column o1 "dist" == some [4] && column o2 "dist" == some [3] && positions o2 == [(3, -3, 0)]
+    | _ => false) = true := by decide +kernel
+/-- evaluated on the model: a track of queries without observation raises `AnalyticalFeatureError` -/
+example : (match mapOnTrackT sqTable 1 (fun n => (n : Rat)) refTrack { snapped with rows := [], xs := [], ys := [], zs := [], ts := [] } with
+    | .error (.feat .empty) => true | _ => false) = true := by decide +kernel
+
 /-- non-vacuity of `proj_polyline_nearest_partial` (horizontal, zero-length, then oblique south-west-bound; `eps = 1`
 skips exactly the zero-length segments on the integer lattice): query `(0,0)` → segment 2 (the index counts the
 skipped segment), foot `(28/25, -21/25)`, distance `7/5` (segment 0 is at distance 3) -/
@@ -581,5 +1048,116 @@ example : (match projOnTrack3 sqTable 1 [(0, 0, 35), (8, 0, 40)] (3, 4, 100) wit
 /-- evaluated on the model: a `Yp` shorter than `Xp` raises `IndexError` -/
 example : (match projPolyligneXY false sqTable 1 [0, 8, 9] [0, 0] 3 4 with
     | .error .index => true | _ => false) = true := by decide +kernel
+
+/-! ## The listed finding `vertical-segment` as a CASE
+
+The harness excuses a failing answer only inside the class of the listed finding D16, and recognises that class from the
+geometry of the input (a kept, exactly vertical segment that the answer depends on), not from one failure pattern. The two
+theorems below are the model's side of that class: which queries raise on a vertical segment, and what an answer of
+`proj_polyligne` on a polyline WITH vertical segments still guarantees. -/
+
+/-- `vertical_zerodiv_iff`: on a vertical segment `(x1,y1)-(x1,y2)` `proj_segment` raises `ZeroDivisionError` exactly when
+the query has the segment's abscissa and the pseudo-foot ordinate `a = y2 - y1` lies between `y1` and `y2` — the
+predicate `zerodiv_vertical` of the harness (exact arithmetic; the numpy form returns inf / nan there instead). In every
+other case it returns an end point (`vertical_as_coded`). -/
+theorem vertical_zerodiv_iff {sqrt : α → α} (hs : SqrtSpec sqrt) (x1 y1 y2 x y : α) (hy : y1 ≠ y2) :
+    projSegment sqrt x1 y1 x1 y2 x y = .error .zerodiv ↔
+      (x = x1 ∧ ((y1 ≤ y2 - y1 ∧ y2 - y1 ≤ y2) ∨ (y2 - y1 ≤ y1 ∧ y2 ≤ y2 - y1))) := by
+  rw [projSegment_vertical hs _ _ _ _ _ hy]
+  constructor
+  · intro h
+    split at h
+    · rename_i hin
+      unfold included at hin
+      simp only [Bool.and_eq_true, Bool.or_eq_true, decide_eq_true_eq] at hin
+      refine ⟨?_, hin.2⟩
+      rcases hin.1 with ⟨a, b⟩ | ⟨a, b⟩
+      · exact le_antisymm b a
+      · exact le_antisymm a b
+    · cases h
+  · rintro ⟨rfl, h⟩
+    have : included x y1 x y2 x (y2 - y1) = true := by
+      unfold included
+      simp only [Bool.and_eq_true, Bool.or_eq_true, decide_eq_true_eq, or_self, le_refl, and_self, true_and]
+      exact h
+    rw [this]; rfl
+
+/-- a `sqrt` that is right on the squares met by the examples of this section -/
+def sqT2 : Rat → Rat := fun v => if v = 1 then 1 else if v = 9 then 3 else if v = 16 then 4 else if v = 25 then 5
+  else if v = 36 then 6 else if v = 64 then 8 else if v = 169 then 13 else if v = 196 then 14 else if v = 225 then 15
+  else if v = 400 then 20 else 0
+
+/-- non-vacuity of `vertical_zerodiv_iff`, both directions, evaluated on the model. Segment `(0,0)-(0,8)`: the query `(0,4)`
+raises (`a = 8` lies in `[0,8]`), the query `(3,4)` does not (its abscissa is not the segment's). Segment `(0,2)-(0,8)`,
+query `(0,4)`: raises (`a = 6` lies in `[2,8]`). Segment `(0,5)-(0,8)`, query `(0,4)`: returns the end point `(0,5)` at
+distance 1 (`a = 3` is outside `[5,8]`) -/
+example : (match projSegment sqT2 0 0 0 8 0 4 with | .error .zerodiv => true | _ => false) = true
+    ∧ (match projSegment sqT2 0 0 0 8 3 4 with | .error .zerodiv => true | _ => false) = false
+    ∧ (match projSegment sqT2 0 2 0 8 0 4 with | .error .zerodiv => true | _ => false) = true
+    ∧ (projSegment sqT2 0 5 0 8 0 4).toOption = some (1, 0, 5) := by decide +kernel
+
+/-- `proj_polyline_vertical_case`: what an answer `(d, (px,py), i)` of `proj_polyligne` guarantees on ANY polyline, kept
+vertical segments included (a polyline with a kept vertical segment has a kept segment: `hex`; without any kept segment
+there is no vertical one to speak of and `proj_polyline_all_skipped` gives the answer) — the formal counterpart of the class
+`vertical-segment` of the harness. Segment `i` is a kept segment and
+* either it is exactly vertical, and then the returned point is one of its two END points (never an interior point:
+  the defect D16) — the answer was built by the defective branch;
+* or it is not vertical, and then the answer is right once the kept vertical segments are left out: the point lies on
+  segment `i`, `d` is its distance to the query, and `d` is at most the distance to every point of segment `i` and of
+  every other kept non-vertical segment.
+Hence every failure of the property on the model involves a kept vertical segment in one of these two ways; a failing
+answer of the real code that is in neither is not an instance of the listed finding. -/
+theorem proj_polyline_vertical_case {sqrt : α → α} (hs : SqrtSpec sqrt) (eps : α) (pts : List (α × α))
+    (x y d px py : α) (i : Nat) (h : projPolyligne sqrt eps pts x y = .ok (d, px, py, i))
+    (hex : ∃ j p1 p2, pts[j]? = some p1 ∧ pts[j + 1]? = some p2 ∧ skipped eps p1.1 p1.2 p2.1 p2.2 = false) :
+    ∃ p1 p2, pts[i]? = some p1 ∧ pts[i + 1]? = some p2 ∧ skipped eps p1.1 p1.2 p2.1 p2.2 = false ∧
+      ((p1.1 = p2.1 ∧ p1.2 ≠ p2.2 ∧ ((px, py) = p1 ∨ (px, py) = p2)) ∨
+       (p1.1 ≠ p2.1 ∧ OnSeg p1.1 p1.2 p2.1 p2.2 px py ∧ 0 ≤ d ∧ d * d = d2 x y px py ∧
+        (∀ qx qy, OnSeg p1.1 p1.2 p2.1 p2.2 qx qy → d * d ≤ d2 x y qx qy) ∧
+        ∀ j q1 q2, pts[j]? = some q1 → pts[j + 1]? = some q2 → skipped eps q1.1 q1.2 q2.1 q2.2 = false →
+          q1.1 ≠ q2.1 → ∀ qx qy, OnSeg q1.1 q1.2 q2.1 q2.2 qx qy → d * d ≤ d2 x y qx qy)) := by
+  have T4 := proj_polyline_min_partial hs eps pts x y d px py i h hex
+  have hl := projPolyligne_kept sqrt eps pts x y _ hex h
+  obtain ⟨o1, _, _⟩ := polyLoop_spec sqrt eps x y pts 0 none _ hl
+  have hfrom : FromSeg sqrt eps x y pts 0 (d, px, py, i) := by
+    rcases o1 with e | ⟨r, e, f⟩
+    · cases e
+    · injection e with e; rw [e]; exact f
+  obtain ⟨k, p1, p2, ⟨s1, s2⟩, hi, hk, hp⟩ := hfrom
+  simp only [Nat.zero_add] at hi
+  subst hi
+  refine ⟨p1, p2, s1, s2, hk, ?_⟩
+  obtain ⟨⟨a1, a2, t1, t2, _, hon⟩, d0, dd, hall⟩ := T4
+  rw [s1] at t1; rw [s2] at t2
+  injection t1 with t1; injection t2 with t2
+  subst t1; subst t2
+  by_cases hx : p1.1 = p2.1
+  · left
+    simp only at hp
+    by_cases hyy : p1.2 = p2.2
+    · rw [← hx, ← hyy, projSegment_degenerate hs] at hp; cases hp
+    · refine ⟨hx, hyy, ?_⟩
+      rw [← hx, projSegment_vertical hs _ _ _ _ _ hyy] at hp
+      split at hp
+      · cases hp
+      · injection hp with hp
+        obtain ⟨_, _, _, _, he⟩ := nearestEnd_spec hs p1.1 p1.2 p1.1 p2.2 x y
+        rw [hp] at he
+        simp only at he
+        rcases he with ⟨e1, e2⟩ | ⟨e1, e2⟩
+        · left; ext <;> simp [e1, e2]
+        · right; ext <;> simp [e1, e2, hx]
+  · right
+    refine ⟨hx, hon, d0, dd, (hall _ p1 p2 s1 s2 hk).2 hx, ?_⟩
+    intro j q1 q2 u1 u2 hj hne
+    exact (hall j q1 q2 u1 u2 hj).2 hne
+
+
+/-- non-vacuity of `proj_polyline_vertical_case`, both branches, evaluated on the model (`eps = 1` skips exactly the
+zero-length segments on the integer lattice), query `(12,5)`. First branch: `(0,0),(0,14),(-4,17)` → segment 0 (vertical),
+its END point `(0,0)` at distance 13, although the foot `(0,5)` is at distance 12 (the other segment is at distance 15).
+Second branch: `(0,0),(0,14),(20,14)` → segment 1 (horizontal), the foot `(12,14)` at distance 9 -/
+example : (projPolyligne sqT2 1 [(0, 0), (0, 14), (-4, 17)] 12 5).toOption = some (13, 0, 0, 0)
+    ∧ (projPolyligne sqT2 1 [(0, 0), (0, 14), (20, 14)] 12 5).toOption = some (9, 12, 14, 1) := by decide +kernel
 
 end TV.C20
